@@ -271,7 +271,7 @@ func ruleGLOB(w *World, r *Report, o globOpts) {
 	r.rule("GLOB", ruleGLOBText)
 	patternFns := map[string]bool{"path/filepath.Glob": true, "path/filepath.Match": true, "path.Match": true}
 	nCalls := 0
-	for _, fn := range w.funcsInPkgs("par1", "par2", "rsec16", "gf2p16", "gf2") {
+	for _, fn := range w.funcsInPkgs("par1", "par2", "rsec16", "gf2p16", "gf2", "cmd/par") {
 		k := 0
 		for _, c := range callInstrs(fn) {
 			f := c.Common().StaticCallee()
